@@ -122,6 +122,7 @@ class StopWorld(World):
         x0 = np.zeros(n, dtype=M.dtype) if x0kind == "zero" else common.randn(g, (n,), cplx, round_=3)
         sysd["scale"] = rng.choice([1.0, 1.0, 1.0, 1e-9, 1e-18, 1e6]) if kind in ("gm", "cg", "pdhg", "lls", "l2c") else 1.0
         sysd["call_style"] = random.Random("stop-callstyle:%d" % seed).choice(["keyword"] * 5 + ["positional"])
+        sysd["ret_style"] = random.Random("stop-retstyle:%d" % seed).choice(["fresh"] * 4 + ["reuse"])
         if sysd["scale"] != 1.0:
             # tiny or huge data: a stopping rule must be about fixed points, not absolute sizes
             y = y * sysd["scale"]
@@ -281,17 +282,31 @@ class StopWorld(World):
         cbf = getattr(self, "_cb_fault", None)
         calls = {}
 
+        reuse = sysd.get("ret_style") == "reuse"
+        bufs = {}
+
         def flaky(name, fn):
-            if not cbf or cbf["cb"] != name:
+            faulty = bool(cbf) and cbf["cb"] == name
+            if not faulty and not reuse:
                 return fn
 
             def wrapped(*a):
-                i = calls.get(name, 0)
-                calls[name] = i + 1
-                if i == cbf["at_call"]:
-                    stats["faults_fired.callback_raise_once"] += 1
-                    raise InjectedCallbackFault("callback %s failed (call %d)" % (name, i))
-                return fn(*a)
+                if faulty:
+                    i = calls.get(name, 0)
+                    calls[name] = i + 1
+                    if i == cbf["at_call"]:
+                        stats["faults_fired.callback_raise_once"] += 1
+                        raise InjectedCallbackFault("callback %s failed (call %d)" % (name, i))
+                out = fn(*a)
+                if reuse and isinstance(out, np.ndarray):
+                    # buggify: the callback hands back the same preallocated array every call
+                    b_ = bufs.get(name)
+                    if b_ is None or b_.shape != out.shape or b_.dtype != out.dtype:
+                        b_ = bufs[name] = np.empty_like(out)
+                    np.copyto(b_, out)
+                    stats["buggify.reuse_buffer"] += 1
+                    return b_
+                return out
             return wrapped
 
         def construct(name, cls, *a, **kw_):
